@@ -174,6 +174,9 @@ func (e *eng) fresh(maxN int) {
 	r := e.r
 	t := r.T
 	n := t.Range(0, maxN)
+	if maxN > 64 {
+		n = t.Range(60, maxN-4)
+	}
 	m := &model{n: n, adj: map[[2]int]bool{}}
 	dens := []int{0, 1, 2, 3, 4}[t.Draw(5)]
 	useNil := t.Chance(1, 5)
@@ -221,6 +224,14 @@ func runOne(r *driver.Run) {
 	e := &eng{r: r}
 	maxN := []int{4, 6, 8, 12}[t.Draw(4)]
 	nops := t.Range(1, 60)
+	big := t.Chance(1, 40)
+	if big {
+		// occasionally a large graph (past 64 vertices: word / block boundaries of any
+		// bit-set or chunked-clearing optimisation), with a short history
+		maxN = 90
+		nops = t.Range(1, 10)
+		r.Probe("large-graph-history")
+	}
 	w := []int{2 + t.Draw(6), 2 + t.Draw(6), 2 + t.Draw(8), 2 + t.Draw(8), t.Draw(4), t.Draw(4), t.Draw(3)}
 	r.Logf("config maxN=%d ops=%d weights=%v", maxN, nops, w)
 	e.fresh(maxN)
@@ -339,11 +350,11 @@ func main() {
 		Property: "C05",
 		Engine:   "graph-edit",
 		Level:    "exploration",
-		Rule: "a case is one seeded history of up to 60 operations (AddVertex with neighbours in any order, RemoveVertex of any vertex, AddEdge/RemoveEdge incl. present/absent/i=j, Copy, InducedSubgraph in any order, new graph) over a pool of up to 4 logical graphs (n <= 4/6/8/12 per run), each held as DenseGraph + SparseGraph + model; after EVERY operation EVERY live object is compared with its model on N, M, Degrees, Neighbours(v) for all v and IsEdge for all pairs, so sharing between a copy/subgraph and its source shows up as drift. " +
+		Rule: "a case is one seeded history of up to 60 operations (AddVertex with neighbours in any order, RemoveVertex of any vertex, AddEdge/RemoveEdge incl. present/absent/i=j, Copy, InducedSubgraph in any order, new graph) over a pool of up to 4 logical graphs (n <= 4/6/8/12 per run; one run in 40: 60-90 vertices), each held as DenseGraph + SparseGraph + model; after EVERY operation EVERY live object is compared with its model on N, M, Degrees, Neighbours(v) for all v and IsEdge for all pairs, so sharing between a copy/subgraph and its source shows up as drift. " +
 			"Non-trivial = at least 3 edits including a RemoveVertex; distinct = distinct fingerprints of the observed (N, M, Degrees) sequences.",
 		Assumptions: []string{
 			"only arguments the EditableGraph interface documents as valid are generated (vertices in range, distinct neighbours / distinct V)",
-			"n <= 12, histories <= 60 operations",
+			"n <= 12 with histories <= 60 operations; one run in 40 uses graphs of 60-90 vertices with histories <= 10 operations",
 			"no fault or schedule exists in this code: the simulator contributes seeded histories over long-lived values, the lock-step model, minimisation and replay",
 		},
 		Real:  []string{"graph.DenseGraph", "graph.SparseGraph", "graph.NewDense", "graph.NewSparse", "sortints (inside SparseGraph)"},
